@@ -147,8 +147,8 @@ DoApply(P, S, H, op) ==
 \* an identifier: the current input value first; only then the host, exactly once; unit if it declines (C17)
 DoResolve(P, S, H, ins) ==
   LET cur == Cur(S)  sym == ins.c
-      found == IF sym.t = "sym" /\ cur.t \in {"pair", "list"} THEN Lookup(cur, sym) ELSE None IN
-  IF sym.t = "sym" /\ ((cur.t = "list" /\ ~DistinctKeys(cur.v)) \/ cur.t \in {"slice", "concat"}) THEN Push(S, SKIP)
+      found == IF sym.t = "sym" /\ HasKeys(cur) THEN Lookup(cur, sym) ELSE None IN
+  IF sym.t = "sym" /\ (~KeysDistinct(cur) \/ cur.t = "slice") THEN Push(S, SKIP)
   ELSE IF found # None THEN Push(S, found[1])
   ELSE IF sym.t # "sym" THEN Push(S, U)
   ELSE LET h == HostResolve(H, sym.n) IN
